@@ -11,7 +11,8 @@
      aes    _pypdf_aes_fallback.patch_pypdf_fallback_aes: pypdf's fallback-provider AES functions
             replaced by the library's pure-Python AES.  Applied by _open_pdf_reader when PdfReader()
             raises DependencyError("... AES algorithm") (AES-256 / V5 documents: the key check already
-            needs AES), never undone.
+            needs AES) and - since repo commit f4a7d41 - whenever the opened reader is encrypted; never
+            undone.
      cfg / tmp / fds / fns : archive_extractor._config, temp-root listing, open file descriptors,
             identity of every third-party function: observed only (Residue event), must be unchanged.
 
@@ -19,13 +20,17 @@
      "plain"          anything without modelled interaction (all fixtures, failing inputs, archives ...)
      "aesT"           PDF that triggers the AES patch (AES-256 / V5, empty user password)
      "aesU"           PDF that needs AES only after the reader is open (AES-128 / V4, empty user
-                      password): extraction works iff the patch happens to be installed
+                      password): its streams can be decrypted iff the patch is installed at that time
      font(f, g)       PDF with embedded font f whose null-mapped glyph ids are g
 
    Deviations (named wrong steps of the as-built code; {} = reference design):
      "FontCacheKeyedByFontOnly"  cache hit on the font bytes alone: a later document with the same
                                  font but other glyph ids gets the first caller's glyph set
      "PermanentAesPatch"         the AES patch stays installed after the extraction that triggered it
+                                 (open finding KF-C15-01: residue only, once the next one is off)
+     "AesPatchOnlyOnOpenFailure" the patch is installed only when PdfReader() itself fails, so an "aesU"
+                                 document works iff an earlier extraction left the patch behind (the pinned
+                                 tree; repaired in /repo by f4a7d41: kept for the sensitivity run)
 
    Properties:  HistoryIndependent (every observation equals the observation of the same document in
    a fresh process),  ResidueFree (aes = FALSE: third-party functions are back).
@@ -36,7 +41,7 @@ EXTENDS Naturals, Sequences, FiniteSets, TLC, Json, IOUtils, TLCExt
 
 CONSTANTS Deviations, Fonts, GidSets, MaxLen
 
-DeviationNames == {"FontCacheKeyedByFontOnly", "PermanentAesPatch"}
+DeviationNames == {"FontCacheKeyedByFontOnly", "PermanentAesPatch", "AesPatchOnlyOnOpenFailure"}
 ASSUME Deviations \subseteq DeviationNames
 
 \* every document is a record of one shape (TLC cannot mix strings and tuples in a set)
@@ -61,9 +66,9 @@ Extract(d, c, a) ==
         LET f == d.f  g == d.g  h == Hit(c, f, g) IN
         IF h = {} THEN [out |-> "ok", gl |-> g, cache |-> c \cup {<<f, g>>}, aes |-> a]
         ELSE [out |-> "ok", gl |-> g \cap (CHOOSE e \in h : TRUE)[2], cache |-> c, aes |-> a]
-    ELSE IF d.k = "aesT" THEN
-        [out |-> "ok", gl |-> {}, cache |-> c,
-         aes |-> IF "PermanentAesPatch" \in Deviations THEN TRUE ELSE a]
+    ELSE IF d.k = "aesT" \/ (d.k = "aesU" /\ "AesPatchOnlyOnOpenFailure" \notin Deviations) THEN
+        [out |-> "ok", gl |-> {}, cache |-> c,                  \* patch installed for this extraction ...
+         aes |-> IF "PermanentAesPatch" \in Deviations THEN TRUE ELSE a]      \* ... and (reference) removed again
     ELSE IF d.k = "aesU" THEN
         [out |-> IF a THEN "ok" ELSE "fail", gl |-> {}, cache |-> c, aes |-> a]
     ELSE [out |-> "same", gl |-> {}, cache |-> c, aes |-> a]
